@@ -7,10 +7,11 @@ CONSTANTS
   Handles <- L_Handles
   DepSets <- L_DepSets
   HandlerSeqs <- L_HSeqs2
-  UpRegs <- L_UpRegs
+  UpProgs <- L_UpProgs
+  CRProg <- L_CR
   QuitOn = TRUE
   QuitDeferred = TRUE
-  DefCap = 2
+  DefCap = 0
   D = 0
 INIT Init
 NEXT Next
